@@ -21,7 +21,7 @@ type applyCase struct {
 	RowNums  string        `json:"row_nums,omitempty"`
 }
 
-var c06VariantNames = []string{"identity", "reversed", "sliced", "sparse", "permuted", "aggregated", "selected", "copied"}
+var c06VariantNames = append(append([]string{}, model.ShapeNames...), "aggregated", "selected", "copied")
 
 func c06Base() model.Frame {
 	N := model.Null()
@@ -389,7 +389,7 @@ func init() {
 	core.Register(&core.Check{
 		ID:    "C06",
 		Level: "model_checking",
-		Rule: "case = (frame variant: 5 index shapes + result of Aggregate, Select, Copy; instruction list; optional FilteredApply clause). All instruction lists of length <= 2 over a ~150-instruction alphabet " +
+		Rule: "case = (frame variant: 7 index shapes + result of Aggregate, Select, Copy; instruction list; optional FilteredApply clause). All instruction lists of length <= 2 over a ~150-instruction alphabet " +
 			"(constants of every type incl. nil string, column copies, zero/one/two-argument functions of every supported signature per source type, built-ins, sources/destinations overlapping, later instructions reading earlier destinations), " +
 			"length 3 over a reduced alphabet (thorough), x 6 FilteredApply clauses, WithRowNums with 6 names. Non-trivial = the model accepts the program; distinct by (variant, program).",
 		Assumptions: []string{
